@@ -70,7 +70,25 @@ CRYPTO_TRUSTED = [
     "JSON reader Base/Json.lean and CBOR reader Base/Cbor.lean stand for the relying party's parsers",
 ]
 
+U2F_TRUSTED = COMMON_TRUSTED + [
+    "modelled by hand: U2fApi::{register, authenticate}, Passkey::wrap_u2f_registration_request / from_u2f_register_response, RegisterResponse::encode, AuthenticationResponse::encode, Version::encode, Request::try_from(&[u8]) incl. its panics (Model/U2f.lean); the stores as in the authenticator model",
+    "environment as parameters: the drawn key pair (read back from the stored passkey); ECDSA signing is not computed — the model yields the signed message and key, every observed signature is verified by the Spec's P-256 oracle (Base/P256.lean)",
+    "the instrumented store wrapper of the harness",
+]
+
 PROPS = {
+    "C17": {
+        "modules": ["PasskeyVerif.Props.C17"],
+        "props_files": ["PasskeyVerif/Props/C17.lean"],
+        "translators": [],
+        "harness": [["gen", "C17"]],
+        "technique": "Lean 4 theorems over a hand-written model of the U2F API, response encodings and request framing; differential correspondence harness with a P-256 / ECDSA oracle for the signatures",
+        "trusted": U2F_TRUSTED,
+        "assumptions": ["key handles of at most 255 bytes (the length byte of the format)", "the registration signature is accepted in DER or as fixed 64-byte r||s (the statement asks that it verifies, not for an encoding; the implementation returns r||s for registration and DER for authentication)"],
+        "level_text": "Kernel-checked for every store, key, application, challenge, key handle, counter and presence byte: a successful U2F registration returns the drawn public point and the key handle, signs 0x00 || application || challenge || key handle || 0x04 || x || y with the drawn key, and the store accepted a credential for that application (base64url as RP ID) and key handle with that key and counter zero; a store error fails it with nothing changed; a successful authentication signs application || presence || big-endian counter || challenge with the key of the first credential listed for key handle and application and echoes presence and counter; when the lookup finds nothing there is no response; after a successful registration, authentication with that handle and application signs with the registered key (on all three stores, via lookup-after-save); the encodings are the fields in the specified order ending in 0x9000 with a faithful length byte and counter field; parsing the extended-length frame of any well-formed register / authenticate (control byte 3, 7, 8; key handle 0..255 bytes) / version request, with or without Le bytes, returns that request. Every observed registration and authentication signature of the stream is verified by the Spec, the stored private key is checked against the returned public key, encodings are compared with the layout, and generated well-formed frames are parsed by the real parser.",
+        "level_note": "Trusted: Lean kernel; axioms propext/Classical.choice/Quot.sound; the hand model (compared byte for byte except signature bytes); P-256 oracle; instrumented store.",
+        "rule": "60 (thorough 400) histories of 2-7 U2F registrations and authentications on the contract store (two applications), the in-memory map and the single-slot store: key handles of 0, 1, 16, 32, 64, 65, 128, 254, 255 bytes, re-registration of a handle, unknown handles, known handle with another application, counters 0, 1, 255, 256, 65536, 2^31, 2^32-1, presence on/off, control bytes 3/7/8; the version response; 120 (600) well-formed extended-length frames (register, authenticate with handles of 0..255 bytes, version; without Le, Le=0000, Le=0100).",
+    },
     "C06": {
         "modules": ["PasskeyVerif.Props.C06"],
         "props_files": ["PasskeyVerif/Props/C06.lean"],
